@@ -334,3 +334,66 @@ Definition check_c13 (c : c13case) : N :=
   let model := (map_to_list (restore (table_hash (c13_tbl c)) ∅ (dump (c13_src c))).1).*2 in
   let m := bool_decide (model ≡ₚ c13_t1 c) in
   if m then (if p then 0 else 2)%N else (if p then 1 else 2)%N.
+
+(* ---------- C14 ---------- *)
+Inductive c14mode := MOk | MMismatch | MFail | MCut.
+
+Inductive c14case :=
+| C14T (tbl : list (key * N)) (mode : c14mode)
+       (exporter : list (N * list entry))                 (* name, entries in dump order *)
+       (importer : list (N * list entry * list entry))    (* name, content before, content after *)
+       (import_ok : bool)
+| C14H (base : N) (fps : list N) (obs : list (list N * N)).
+
+Definition overlay (init order : list entry) : list entry :=
+  order ++ List.filter (fun e => negb (bool_decide (eK e ∈ map eK order))) init.
+
+Definition prefixes {A} (l : list A) : list (list A) := map (fun n => take n l) (seq 0 (S (length l))).
+
+Definition c14t_ok (mode : c14mode) (exporter : list (N * list entry)) (imp : N * list entry * list entry) : bool :=
+  let '(name, init, final) := imp in
+  match list_find (fun x => bool_decide (x.1 = name)) exporter, mode with
+  | Some (_, (_, order)), MOk => bool_decide (final ≡ₚ overlay init order)
+  | Some (_, (_, order)), MCut => existsb (fun pre => bool_decide (final ≡ₚ overlay init pre)) (prefixes order)
+  | _, _ => bool_decide (final ≡ₚ init)
+  end.
+
+Definition c14t_model (tbl : list (key * N)) (mode : c14mode) (exporter : list (N * list entry))
+           (imp : N * list entry * list entry) : bool :=
+  let '(name, init, final) := imp in
+  let h := table_hash tbl in
+  let m0 := restore_entries h ∅ init in
+  match list_find (fun x => bool_decide (x.1 = name)) exporter, mode with
+  | Some (_, (_, order)), MOk => bool_decide ((map_to_list (restore h m0 (dump order)).1).*2 ≡ₚ final)
+  | Some (_, (_, order)), MCut =>
+      existsb (fun n => bool_decide ((map_to_list (restore_truncated h m0 (dump order) n).1).*2 ≡ₚ final))
+              (seq 0 (S (length order)))
+  | _, _ => bool_decide ((map_to_list m0).*2 ≡ₚ final)
+  end.
+
+Definition set_eqb (a b : list N) : bool :=
+  forallb (fun x => bool_decide (x ∈ b)) a && forallb (fun x => bool_decide (x ∈ a)) b.
+
+Definition c14h_ok (obs : list (list N * N)) : bool :=
+  forallb (fun o1 => forallb (fun o2 =>
+     (* same set of types => same hash; one more type => different hash *)
+     (if set_eqb o1.1 o2.1 then (o1.2 =? o2.2)%N else true) &&
+     (match o2.1 with
+      | t :: rest => if negb (bool_decide (t ∈ rest)) && set_eqb rest o1.1 then negb (o1.2 =? o2.2)%N else true
+      | [] => true
+      end)) obs) obs.
+
+Definition c14h_model (base : N) (fps : list N) (obs : list (list N * N)) : bool :=
+  (base =? 0)%N &&
+  forallb (fun o => ((register (fun t : N => nth (N.to_nat t) fps 0%N) st0 o.1).1 =? o.2)%N) obs.
+
+Definition check_c14 (c : c14case) : N :=
+  match c with
+  | C14T tbl mode ex im ok =>
+      let p := ok && forallb (c14t_ok mode ex) im in
+      let m := forallb (c14t_model tbl mode ex) im in
+      if m then (if p then 0 else 2)%N else (if p then 1 else 2)%N
+  | C14H base fps obs =>
+      let p := c14h_ok obs in
+      if c14h_model base fps obs then (if p then 0 else 2)%N else (if p then 1 else 2)%N
+  end.
